@@ -10,6 +10,7 @@
 (*   Recovery.tla   D1-D4   retry delays and retryable errors               *)
 (*                  F1-F3   fail-over bookkeeping (the server breaker)      *)
 (*                  R1-R7   the recovery loop                               *)
+(*                  H1-H3   ordered fail-over of the reqwest client         *)
 (* and here for part (c), the connection pool (pool.rs ConnectionPool,      *)
 (* ConnectionGuard "RAII guard for connection permits", ConnectionPoolConfig*)
 (* max_connections_per_host "maximum connections per individual host"):     *)
@@ -206,6 +207,15 @@ JudgePool(cfg, st, e) ==
   IN Verdict(ideal \/ dH, IF dH THEN "FX02h" ELSE "", s1)
 
 \* ===========================================================================
+\* cdn family (ReqwestHttpClient::get_cdn_content against loopback mocks)
+\* ===========================================================================
+JudgeCdn(cfg, st, e) ==
+  IF e.op # "get" THEN Verdict(FALSE, "", st)
+  ELSE LET ideal == CdnExplained(cfg, e, {""})
+           dI    == IF ideal # {} \/ ~Dev("FX02i") THEN {} ELSE CdnExplained(cfg, e, {"FX02i"})
+       IN Verdict(ideal # {} \/ dI # {}, IF ideal = {} /\ dI # {} THEN "FX02i" ELSE "", st)
+
+\* ===========================================================================
 \* one entry point for the monitor and the machines
 \* ===========================================================================
 St0(fam, cfg) == CASE fam = "plan" -> PlanSt0 [] fam = "rm" -> 0 [] fam = "fo" -> FoObs0(RecHosts(cfg))
@@ -216,6 +226,7 @@ Judge(fam, cfg, st, e) ==
     [] fam = "fo"   -> JudgeFo(cfg, st, e)
     [] fam = "rec"  -> JudgeRec(cfg, st, e)
     [] fam = "pool" -> JudgePool(cfg, st, e)
+    [] fam = "cdn"  -> JudgeCdn(cfg, st, e)
     [] OTHER -> Verdict(FALSE, "", st)
 \* a run may only end between calls of execute_with_recovery
 OpenAtEnd(fam, st) == fam = "rec" /\ st.calls # <<>>
